@@ -22,6 +22,7 @@ def run(ctx):
     scen += rc.gen_scenarios(ctx, 60 if quick else 1500, depth=10, cfg='OciRegistryGenBlobs.cfg')
     # transition coverage: one history per (state, operation) pair of the model-checked universe
     scen += rc.cover_scenarios(ctx, 'OciRegistryCover_all.cfg', sample=1200 if quick else 60000)
+    scen += rc.cover_scenarios(ctx, 'OciRegistryCover_broken.cfg', sample=300 if quick else None)
     scen += rc.cover_scenarios(ctx, 'OciRegistryCover_up.cfg', sample=500 if quick else None, probe=UP_PROBE)
     sp = rc.write_scenarios(ctx, scen)
     td = ctx.sub('traces')
